@@ -733,6 +733,13 @@ async def check_step(real: Real, obs, to_enc, before_proj, failed_expected):
         exp_v = canon(obs["v"])
         if got_v != exp_v:
             return "value", exp_v, got_v, attribute(obs, exp_r, got_r, "value", (exp_v, got_v))
+    # (the events of the step are compared further down; a step that fails and nevertheless announces something breaks C18's clause
+    # "calls that fail dispatch nothing" whatever else it did, so that is found out first)
+    spurious_events = False
+    if not obs.get("ev") and obs.get("r") in ("Invalid", "RuntimeError", "ResourceConflict"):
+        for cc, log_ in real.events.items():
+            if len(log_) > ev_before.get(cc, 0):
+                spurious_events = True
     # projection of every context
     proj = real.projection()
     exp_proj = spec_projection(to_enc)
@@ -761,7 +768,7 @@ async def check_step(real: Real, obs, to_enc, before_proj, failed_expected):
                                     (cnum, k, "get_resources does not list it" if g[0].get(k) == 0 else f"get_resources gives {g[0].get(k)}"), props)
         except Exception:  # noqa: BLE001
             pass
-        return "proj", (cnum, e[0]), (cnum, g[0]), props
+        return "proj", (cnum, e[0]), (cnum, g[0]), (set(props) | {"C18"} if spurious_events else props)
     # events
     exp_ev = [(e["c"], tuple(sorted(e["types"])), e["name"], bool(e["fac"]), True, True, e["desc"]) for e in obs.get("ev", [])]
     got_ev = []
